@@ -144,7 +144,7 @@ class Ctx(object):
         in one shard (used for stateful traces)."""
         if not events:
             return []
-        shard = min(max(shard // 8, -(-len(events) // NCPU)), shard * 2) if len(events) > shard else shard
+        shard = max(300, min(shard * 2, -(-len(events) // NCPU)))
         shards = []
         if group is None:
             for i in range(0, len(events), shard):
